@@ -280,12 +280,17 @@ class Tokenizer(object):
                     self.pushChar(next_char)
                 else:
                     next_char = _read1()
-                    num = ord(next_char)
-                    if num >= 64:
-                        token = chr(num-64)
+                    if not next_char:
+                        # "^^" at the very end of the input: there is nothing
+                        # to decode, so these are two superscript characters
+                        self.pushChar(token)
                     else:
-                        token = chr(num+64)
-                    code = whichCode(token)
+                        num = ord(next_char)
+                        if num >= 64:
+                            token = chr(num-64)
+                        else:
+                            token = chr(num+64)
+                        code = whichCode(token)
 
             # Just go to the next character if you see one of these...
             if code in (CC_IGNORED, CC_INVALID):
